@@ -54,6 +54,9 @@ CHECKS = {
  "C20": ("exploration", "black-box differential testing of the built macat binary against independent decoders (raw/ascii/quoted/msgpack) and lock-step counting peers",
    "The binary built from the current tree is run as a child process bound/connected over loopback tcp/ipc to harness sockets: received bodies covering every byte value and the msgpack 255/256 and 65535/65536 boundaries must decode back exactly from stdout in all four formats (one record per message, completeness by sentinel); --data/--file bytes must arrive unchanged exactly --count times (lock-step REQ/SURVEYOR/PAIR/BUS/STAR peers); bare-integer durations are checked as exact lower bounds in seconds; 20 conflicting/missing option combinations must exit non-zero with a message, print nothing and send nothing.",
    "Trusted: the harness decoders; process start/exit timing is only used for lower bounds; a silent but alive macat is inconclusive.", "3/C20"),
+ "C11": ("exploration", "Go race detector (-race) over a seeded concurrent API mixer; reports parsed, classified library/harness and deduplicated by function pair; stuck detector for deadlock; recover()/child-crash detection for panics and fatal errors",
+   "For every protocol connected to a peer over inproc/tcp/ipc (thorough: all six transports) 6-16 goroutines each issue 120 (250) calls from PRNG-chosen subsets of ~50 public API operations on the socket, its contexts, dialers, listeners and pipes, with library yield points on, then Close from two goroutines; configurations are repeated 8 (16) times because race reports vary. A race report with both accesses in library code, a panic or runtime fatal error, a non-terminating mixer (whole-process quiescence) or a result that is neither nil nor a documented error is a violation. The evidence lists how many distinct pairs of call kinds actually overlapped in time.",
+   "Trusted: the race detector's happens-before model; a clean run says nothing about accesses that never overlapped. Harness-side races fail the run as a broken check.", "3/C11"),
 }
 
 NOT_YET = {}
